@@ -261,7 +261,17 @@ func cmdCheck(args []string) int {
 							break
 						}
 						qs := j.unit.VC.QuerySliced(j.obl, p.preludeFor(j.unit.Pkg), j.split, false, keep)
-						st := 20 * (depth + 1)
+						// 20/40/60 s for the default limit; units that declare a longer limit get
+						// proportionally longer slice budgets (their sliced proofs are tens of seconds,
+						// and a budget that is only just enough turns load into a spurious timeout)
+						unitSt := 20
+						if to/6 > unitSt {
+							unitSt = to / 6
+						}
+						if unitSt > 60 {
+							unitSt = 60 // thorough limits are ten times longer; a failed slice must not cost that
+						}
+						st := unitSt * (depth + 1)
 						if st > to {
 							st = to
 						}
